@@ -25,7 +25,7 @@ func init() {
 			"callers cancel / are pre-cancelled / carry deadlines; SkipRead Gets on fresh entries; the harness backend wrapper and builders record TTL(ctx), Err, Done, Deadline and the ctx value; " +
 			"oracle = reference fold 'minimal non-zero TTL' for the final store, exact UpdateTTL and stale token for the refresh store, caller TTL after Get, detached context inside background builds and their final Write, " +
 			"stored expiry (Walk) within the C10 interval of the expected TTL, SkipRead forces a build whose result is stored; distinct_nontrivial = distinct (config, caller cell, update list, path) combinations judged",
-		Required:    []string{"final_writes.checked", "refresh_writes.checked", "bg_builds.checked", "bg_builds.caller_cancelled", "skipread.owner_built", "expiry.checked", "fold.with_cell", "fold.zero_update_on_nonzero", "caller_ttl_after.checked", "path.sync", "path.bg"},
+		Required:    []string{"final_writes.checked", "refresh_writes.checked", "bg_builds.checked", "bg_builds.caller_cancelled", "skipread.owner_built", "expiry.checked", "fold.with_cell", "fold.zero_update_on_nonzero", "caller_ttl_after.checked", "path.sync", "path.bg", "built_values.store_checked"},
 		Assumptions: []string{"without a caller TTL cell the doc promises no propagation: both the backend default and the builder's minimum are accepted", "expiry bounds as in C10 (jitter default 0.1)"},
 		Timeout:     func(string) time.Duration { return 45 * time.Minute },
 	})
@@ -77,6 +77,8 @@ func c06Case(b *Batch, idx int) {
 	c := genFoCase(rng, o)
 	c.Collide = false
 	c.Cfg.UpdateTTL = c06UpdateTTL
+	c.Cfg.Observe = rng.Intn(2) == 0
+	sameValues := rng.Intn(3) == 0 // the data source did not change: builders return what is already cached
 	c.FailPct = []int{0, 0, 30}[rng.Intn(3)]
 	for w := range c.Scripts {
 		for g := range c.Scripts[w] {
@@ -112,7 +114,7 @@ func c06Case(b *Batch, idx int) {
 	failPct := uint64(c.FailPct)
 	r.script = func(key, inv int) buildOutcome {
 		h := mix64(seed ^ uint64(key+1)*0x9E3779B97F4A7C15 ^ uint64(inv+1)*0xC2B2AE3D27D4EB4F)
-		out := buildOutcome{OK: h%100 >= failPct}
+		out := buildOutcome{OK: h%100 >= failPct, Same: sameValues && (h>>20)%2 == 0}
 		nu := int((h >> 8) % 4)
 		for u := 0; u < nu; u++ {
 			hh := mix64(h + uint64(u)*7919)
@@ -157,6 +159,13 @@ func c06Case(b *Batch, idx int) {
 		}
 	}
 	hasCell := func(g int) bool { return strings.Contains(calls[g].Info, "callerttl") }
+	writesOf := map[int]int{}
+	refreshed := map[int]bool{}
+	for _, e := range x.log {
+		if e.Kind == "log" && strings.Contains(e.Info, "refreshing expired value") {
+			refreshed[e.Get] = true
+		}
+	}
 	lastWrite := map[int]foEvent{}
 	for _, e := range x.log {
 		switch e.Kind {
@@ -205,7 +214,12 @@ func c06Case(b *Batch, idx int) {
 			if e.Key >= 0 && !e.Inject {
 				lastWrite[e.Key] = e
 			}
-			if built && ex.Val != "" && e.Val == ex.Val {
+			writesOf[e.Get]++
+			isFinal := built && ex.Val != "" && e.Val == ex.Val
+			if isFinal && refreshed[e.Get] && writesOf[e.Get] == 1 {
+				isFinal = false // the first store of a Get that logged "refreshing expired value" is the refresh, whatever it holds
+			}
+			if isFinal {
 				// final store of a built value
 				b.R.Count("final_writes.checked", 1)
 				b.R.Nontrivial(fmt.Sprintf("%s/cell=%v:%d/upd=%s/bg=%v", c.CfgS, hasCell(e.Get), calls[e.Get].TTL, ex.Info, ex.BG))
@@ -264,6 +278,25 @@ func c06Case(b *Batch, idx int) {
 				} else {
 					b.R.Count("skipread.owner_built", 1)
 				}
+			}
+		}
+	}
+	// every successfully built value is stored (also when the Get carried SkipRead)
+	written := map[string]bool{}
+	for _, e := range x.log {
+		if e.Kind == "be.write" {
+			written[e.Val] = true
+		}
+	}
+	for g, ex := range exits {
+		if ex.Val != "" {
+			b.R.Count("built_values.store_checked", 1)
+			wantStores := 1
+			if refreshed[g] {
+				wantStores = 2 // the temporary re-store of the stale value and the final store of the built one
+			}
+			if !written[ex.Val] || writesOf[g] != wantStores {
+				fail("built-value-not-stored", fmt.Sprintf("get %d (SkipRead=%v, %s) built %s: %d backend stores by this Get, want %d (refresh logged: %v)", g, calls[g].Skip, ex.Note, ex.Val, writesOf[g], wantStores, refreshed[g]))
 			}
 		}
 	}
